@@ -5,6 +5,6 @@
 package inproc
 
 //@ struct inproc
-//@   immutable: rq wq closeq readyq selfProto peerProto addr
+//@   immutable: closeq readyq selfProto peerProto addr
 //@   never_closed: rq wq
 //@   elem_invariant rq, wq: elem != nil && arrof(elem.Header) != arrof(elem.Body) && len(elem.Header) == 0
